@@ -400,7 +400,8 @@ def rnd_bytes(rng, maxlen=40):
     elif r < 0.7:
         n = rng.randrange(0, 8)
     elif r < 0.9:
-        n = rng.choice([22, 23, 24, 25, 255, 256, 257]) if maxlen >= 257 else rng.randrange(0, maxlen + 1)
+        # CBOR head boundaries and the sizes of small fixed buffers / machine words an implementation might special-case
+        n = rng.choice([22, 23, 24, 25, 255, 256, 257, 8, 9, 15, 16, 17, 31, 32, 33, 63, 64, 65, 127, 128, 129]) if maxlen >= 257 else rng.randrange(0, maxlen + 1)
     else:
         n = rng.randrange(0, maxlen + 1)
     mode = rng.random()
@@ -413,3 +414,43 @@ def rnd_bytes(rng, maxlen=40):
 
 def xhex(b):
     return "x" + bytes(b).hex()
+
+
+_RFC3339 = None
+
+
+def rfc3339_instant_ms(text):
+    """the instant (Unix milliseconds) an RFC 3339 UTC text `YYYY-MM-DDTHH:MM:SS[.fraction]Z` denotes, or None when the text is not such
+    a date (or denotes an instant finer than a millisecond).  The NUMBER of fraction digits is free: `.5Z`, `.500Z` and `.500000000Z` denote
+    the same instant, and that is all C17 / C20 speak about."""
+    global _RFC3339
+    import re
+    import datetime
+    if _RFC3339 is None:
+        _RFC3339 = re.compile(r"^([0-9]{4})-([0-9]{2})-([0-9]{2})[Tt]([0-9]{2}):([0-9]{2}):([0-9]{2})(?:\.([0-9]+))?[Zz]$")
+    m = _RFC3339.match(text)
+    if not m:
+        return None
+    y, mo, d, h, mi, sec = (int(m.group(i)) for i in range(1, 7))
+    frac = m.group(7) or ""
+    if len(frac) > 3 and frac[3:].strip("0"):
+        return None
+    ms = int((frac + "000")[:3])
+    try:
+        dt = datetime.datetime(y, mo, d, h, mi, sec)
+    except ValueError:
+        return None
+    return ((dt - datetime.datetime(1970, 1, 1)) // datetime.timedelta(milliseconds=1)) + ms
+
+
+def canon_rfc3339_hex(hextext, suffix_ok=True):
+    """hex of a text that starts with an RFC 3339 date (optionally followed by ` <rest>`): `<instant ms>[ <rest>]`, else None"""
+    try:
+        txt = bytes.fromhex(hextext).decode("utf-8")
+    except (ValueError, UnicodeDecodeError):
+        return None
+    head, sep, rest = txt.rstrip("\n").partition(" ")
+    ins = rfc3339_instant_ms(head)
+    if ins is None or (sep and not suffix_ok):
+        return None
+    return "@%d%s" % (ins, (" " + rest) if sep else "")
